@@ -107,9 +107,9 @@ def step (_ : Unit) (pre post : List String) : Unit × Verdict :=
             | some v => s!"{if v.isEmpty then "-" else ".".intercalate (v.map toString)}/{v.length}/{isSealed k}"
             | none => "-/0/false")
         -- the cache layer as coded; the final reads go through the same `get`
-        let (c, outs) := SerialCache.run false max (SerialCache.init cap) ops
+        let (c, outs) := SerialCache.run true max (SerialCache.init cap) ops
         let (finVals, cfin) := (List.range nsess).foldl (fun (acc : List (Option (List Nat)) × SerialCache.C) k =>
-          let (v, c') := SerialCache.get false acc.2 k
+          let (v, c') := SerialCache.get true acc.2 k
           (acc.1 ++ [v], c')) ([], c)
         let model := s!"res={",".intercalate (outs.map outName)} final={renderFin (fun k => finVals.getD k none) (fun k => cfin.sealed_.contains k)}"
         let impl := " ".intercalate post
